@@ -24,6 +24,7 @@ running thread's stack survive other threads' collections; an assignment of a gl
 thread that learns of it afterwards (through a channel or a join); mutex-protected global counters
 are exact."""
 import json
+import os
 import re
 
 from . import core
@@ -318,12 +319,125 @@ def run(prop, tier):
                         "stall = no H-prog counter moved for %d s (decided inside the child); the wall-clock cap of %d s is only a watchdog"
                         % (STALL_MS // 1000, CAP_MS // 1000),
                         "a natively compiled loop that makes no helper call dispatches no instruction; the generated programs allocate and call primitives in every loop"]
+    if prop == "C15" and (tier == "thorough" or os.environ.get("VERIF_TSAN")):
+        tsan_pass(rep, progs)
     total = len(progs) * len(configs)
     if observed["SCANS_OF_OTHER_THREADS"] < 200 or observed["STOP_THE_WORLD"] < 1000:
         rep.inconclusive_note("too few world-stopping operations observed: %s" % observed, floor=True)
     if stats["finished"] < total:
         rep.inconclusive_note("only %d of %d program runs finished" % (stats["finished"], total), floor=stats["finished"] < total // 2)
     return rep.finish()
+
+
+# ------------------------------------------------------------------------------------------------
+# ThreadSanitizer pass (C15, thorough tier): the same programs on a -Zsanitizer=thread build of the harness (std rebuilt
+# with the sanitizer), JIT off (natively compiled code is not instrumented).  A report counts for C15 when one of the two
+# racing stacks runs through the runtime's world-stopping code; races whose two accesses are both inside steel-rc are C05's
+# business (finding C05-F03) and anything else is listed in the evidence but not judged here.
+STW_FRAMES = re.compile(r"enumerate_stacks|call_per_ctx|stop_threads|resume_threads|Heap>::mark|mark_and_sweep|verif_full_collection|"
+                        r"Heap>::collect|weak_collection|Heap>::sweep|handle_set|handle_bind|insert_binding|repl_set_idx|repl_define_idx|"
+                        r"MarkAndSweepContext|GlobalSlotRecycler")
+
+
+def _frames(block):
+    """in-repository frames (function name without generic arguments, file) of one stack of a TSan report"""
+    out = []
+    for line in block:
+        m = re.match(r"\s+#\d+ (.*) (/repo/crates/[^: ]+):\d+", line)
+        if m:
+            fn = re.sub(r"::<.*", "", m.group(1))
+            fn = re.sub(r"<([^<>]|<[^<>]*>)*>", "<_>", fn)
+            out.append((fn.strip(), m.group(2).replace("/repo/crates/", "")))
+    return out
+
+
+def parse_tsan_logs(paths):
+    """-> list of (kind, stackA frames, stackB frames, raw head)"""
+    reports = []
+    for path in paths:
+        try:
+            text = open(path, errors="replace").read()
+        except OSError:
+            continue
+        for rep_ in text.split("==================\n"):
+            if "WARNING: ThreadSanitizer:" not in rep_:
+                continue
+            kind = re.search(r"WARNING: ThreadSanitizer: ([^(\n]+)", rep_).group(1).strip()
+            stacks = []
+            cur = None
+            for line in rep_.splitlines():
+                if re.match(r"\s+(Read|Write|Previous|Atomic|Mutex|Thread T|Location|Cycle|Signal)", line) or line.strip() == "":
+                    if cur:
+                        stacks.append(cur)
+                    cur = [] if re.match(r"\s+(Read|Write|Previous (read|write|atomic)|Atomic)", line, re.I) else None
+                elif cur is not None:
+                    cur.append(line)
+            if cur:
+                stacks.append(cur)
+            fr = [_frames(b) for b in stacks[:2]]
+            while len(fr) < 2:
+                fr.append([])
+            reports.append((kind, fr[0], fr[1], rep_[:1500]))
+    return reports
+
+
+def tsan_pass(rep, progs):
+    import glob
+    import os
+    try:
+        core.build("tsan")
+    except core.BuildError as e:
+        rep.inconclusive_note("ThreadSanitizer build of the harness failed: %s" % e)
+        return
+    d = core.scratch_dir("tsanlogs")
+    supp = os.path.join(core.VERIF, "tools", "tsan.supp")
+    env = {"STEEL_JIT": "false",
+           "TSAN_OPTIONS": "halt_on_error=0:exitcode=0:report_signal_unsafe=0:log_path=%s/tsan:suppressions=%s:history_size=4" % (d, supp)}
+    r = core.rng("C15-tsan")
+    cases = []
+    sel = []
+    for kind in KINDS:
+        for j in range(2):
+            workers = r.choice([2, 3, 4])
+            k, src, exp = gen_program(r, workers, 20, kind)
+            sel.append((kind, workers, src, exp))
+            cases.append({"id": "t%d" % len(cases), "units": [src], "timeout_ms": 900000, "no_vals": True, "mem_mb": 0,
+                          "gc_every": 150 if j else 0})
+    results, meta = core.run_cases(cases, env=env, variant="tsan", tag="c15tsan", shards=NC_TSAN)
+    finished = sum(1 for c in cases if results.get(c["id"], {}).get("status") == "ok")
+    reports = parse_tsan_logs(glob.glob(os.path.join(d, "tsan.*")))
+    seen = {}
+    stats = {"programs": len(cases), "finished": finished, "reports": len(reports), "inside_steel_rc_left_to_C05": 0,
+             "through_world_stopping_code": 0, "other_not_judged": 0}
+    others = {}
+    for kind, a, b, raw in reports:
+        ta = a[0] if a else ("?", "?")
+        tb = b[0] if b else ("?", "?")
+        if kind.startswith("data race") and ta[1].startswith("steel-rc/") and tb[1].startswith("steel-rc/"):
+            stats["inside_steel_rc_left_to_C05"] += 1
+            continue
+        through = [f for f in a + b if STW_FRAMES.search(f[0])]
+        if kind.startswith("data race") and through:
+            stats["through_world_stopping_code"] += 1
+            pair = sorted(["%s (%s)" % ta, "%s (%s)" % tb])
+            sig = "C15 ThreadSanitizer: data race between %s and %s" % (pair[0], pair[1])
+            if sig not in seen:
+                seen[sig] = 1
+                rep.violation(sig, "one of the racing stacks runs through %s; report head:\n%s" % (through[0][0], raw[:900]),
+                              {"tsan": True, "note": "re-run ./check C15 --tier thorough"})
+        else:
+            stats["other_not_judged"] += 1
+            key = "%s: %s / %s" % (kind, ta[0], tb[0])
+            others[key] = others.get(key, 0) + 1
+    stats["other_reports"] = dict(sorted(others.items(), key=lambda kv: -kv[1])[:10])
+    rep.note("thread_sanitizer_pass", stats)
+    if finished < len(cases) // 2:
+        rep.inconclusive_note("ThreadSanitizer pass: only %d of %d programs finished" % (finished, len(cases)))
+    import shutil
+    shutil.rmtree(d, ignore_errors=True)
+
+
+NC_TSAN = 11
 
 
 def main(tier):
